@@ -5,15 +5,15 @@ CONSTANTS
   T = "t"
   F = "f"
   AuthorOrder <- MC_AuthorOrder
-  RemoteBodies <- MC_RemoteBodies2
-  RemotePrunes <- MC_RemotePrunes2
+  RemoteBodies <- MC_RemoteBodiesQ
+  RemotePrunes <- MC_RemotePrunesQ
   Policies = {"auto", "explicit"}
   ResetHeights <- MC_ResetHeights
-  Defect_ReadBeforePermit = FALSE
-  MaxPub = 2
-  MaxPrune = 1
+  Defect_ReadBeforePermit = TRUE
+  MaxPub = 1
+  MaxPrune = 0
   MaxImp = 1
-  MaxAck = 3
+  MaxAck = 2
   MaxForeign = 1
   MaxReset = 1
   MaxCrash = 1
